@@ -1,6 +1,7 @@
 package main
 
 import (
+	"go/token"
 	"fmt"
 	"strings"
 
@@ -10,9 +11,9 @@ import (
 func init() {
 	Register(&Property{
 		ID: "C35",
-		Decides: "(R35.1) precedence: the prohibit request and the superuser are decided before any table lookup; the user's table is consulted first and decides whenever it assigned anything; only otherwise the default user's table is consulted, with the same scope and requirement; inside a table the scope entry decides if present, the table's default entry only if the scope entry is absent; every table answer is `assigned >= required`; " +
+		Decides: "(R35.1) precedence: the prohibit request and the superuser are decided before any table lookup; the user's table is consulted first and decides whenever it assigned anything; only otherwise the default user's table is consulted, with the same scope and requirement; inside a table the scope entry decides if present, the table's default entry only if the scope entry is absent; every table answer is true only as `assigned >= required` and only for an entry above prohibit; " +
 			"(R35.2) text form: String and UnmarshalText map the same literals to the same constants (\"x\" prohibit, \"s\" super) and a run of k 'o' to k+1 and back.",
-		NotDecided: "the full decision table over all inputs; a requirement of 0 (not a valid permission) is satisfied by every assigned permission including prohibit; a run of 78 or more 'o' parses to super or beyond (rejected by IsValid); how the table is loaded from YAML.",
+		NotDecided: "the full decision table over all inputs; a run of 78 or more 'o' parses to super or beyond (rejected by IsValid); how the table is loaded from YAML.",
 		Run:        runC35,
 	})
 }
@@ -68,9 +69,11 @@ func runC35(c *Ctx) {
 				}
 			}
 			for _, in := range c.StoresD(cl, "&var:allow") {
-				d := c.D(in.(*ssa.Store).Val)
-				c.Report(cl, "allow is `entry >= required` or the table default's answer", c.InstrPos(in),
-					d == "(perms[scope]#0 >= required)" || d == "acl.fromDefault(perms, required)#1", d)
+				v := in.(*ssa.Store).Val
+				if c.D(v) == "acl.fromDefault(perms, required)#1" {
+					continue
+				}
+				tableAnswer(c, cl, in, v, "perms[scope]#0", "the scope entry")
 			}
 		} else {
 			c.Unresolved(parent, "table lookup callback", "not found")
@@ -84,7 +87,8 @@ func runC35(c *Ctx) {
 				c.Report(fn, "no table default assigns nothing", c.InstrPos(r), a == "0", a)
 				continue
 			}
-			c.Report(fn, "the table default answers `default >= required`", c.InstrPos(r), a == "perms[\"_default\"]#0" && b == "(perms[\"_default\"]#0 >= required)", a+", "+b)
+			c.Report(fn, "the table default is what is assigned", c.InstrPos(r), a == "perms[\"_default\"]#0", a)
+			tableAnswer(c, fn, r, RetVal(r, 1), "perms[\"_default\"]#0", "the table default")
 			c.MP(fn, "the table default is used only if present", []ssa.Instruction{r}, 1, GTrue("perms[\"_default\"]#1"))
 		}
 	}
@@ -138,4 +142,143 @@ func runC35(c *Ctx) {
 	if fn := c.Need("launch.(ACLPerm).MarshalText"); fn != nil {
 		c.Exists(fn, "MarshalText is String", c.CallsD(fn, "p.String()"), 1)
 	}
+}
+
+// tableAnswer: the boolean answer v of a table entry E (used at instruction at) is true only if
+// E >= required and E is not prohibit. v is a comparison or a (nested) phi of comparisons and false
+// (the lowering of && chains); "v is true" then means: some non-false leaf is true and the edge that
+// carries it was taken. Both facts must follow, for every such leaf, from the leaf itself or from the
+// conditions on every path that takes its edge (or, for a plain value, on every path to the use).
+func tableAnswer(c *Ctx, fn *ssa.Function, at ssa.Instruction, v ssa.Value, entry, what string) {
+	type want struct {
+		name string
+		rel  []struct {
+			op token.Token
+			y  string
+		}
+		gates []Gate
+	}
+	e := globEscape(entry)
+	wants := []want{
+		{"is at least the required permission", []struct {
+			op token.Token
+			y  string
+		}{{token.GEQ, "required"}}, []Gate{GCmp(e, ">=", "required")}},
+		{"is not prohibit", []struct {
+			op token.Token
+			y  string
+		}{{token.GTR, "1"}, {token.NEQ, "1"}, {token.GEQ, "2"}}, []Gate{GCmp(e, ">", "1"), GCmp(e, "!=", "1"), GCmp(e, ">=", "2")}},
+	}
+	leafImplies := func(x ssa.Value, w want) bool {
+		b, ok := x.(*ssa.BinOp)
+		if !ok {
+			return false
+		}
+		l, r := c.D(b.X), c.D(b.Y)
+		for _, rel := range w.rel {
+			switch {
+			case l == entry && r == rel.y:
+				if implies(b.Op, rel.op) {
+					return true
+				}
+			case r == entry && l == rel.y:
+				if implies(flipOp[b.Op], rel.op) {
+					return true
+				}
+			}
+		}
+		return false
+	}
+	type leaf struct {
+		v    ssa.Value
+		edge *Edge
+	}
+	var leaves []leaf
+	shapeOK := true
+	seen := map[ssa.Value]bool{}
+	var walk func(x ssa.Value, e *Edge)
+	walk = func(x ssa.Value, e *Edge) {
+		if phi, ok := x.(*ssa.Phi); ok {
+			if seen[x] {
+				return
+			}
+			seen[x] = true
+			for i, ev := range phi.Edges {
+				walk(ev, &Edge{phi.Block().Preds[i], phi.Block()})
+			}
+			return
+		}
+		if c.D(x) == "false" {
+			return
+		}
+		if _, ok := x.(*ssa.BinOp); !ok {
+			shapeOK = false
+		}
+		leaves = append(leaves, leaf{x, e})
+	}
+	walk(v, nil)
+	if !shapeOK || len(leaves) == 0 {
+		c.Report(fn, what+" allows only through comparisons of the entry", c.InstrPos(at), false, c.D(v))
+		return
+	}
+	// the requirement test is exactly ">=" (a permission equal to the requirement allows)
+	for _, b := range fn.Blocks {
+		for _, in := range b.Instrs {
+			bo, ok := in.(*ssa.BinOp)
+			if !ok {
+				continue
+			}
+			l, r := c.D(bo.X), c.D(bo.Y)
+			op := bo.Op
+			switch {
+			case l == entry && r == "required":
+			case r == entry && l == "required":
+				op = flipOp[op]
+			default:
+				continue
+			}
+			c.Report(fn, what+" is compared with the requirement only as >= (or its negation <)", c.InstrPos(in), op == token.GEQ || op == token.LSS, c.D(bo))
+		}
+	}
+	for _, w := range wants {
+		ok := true
+		var why []string
+		for _, lf := range leaves {
+			if leafImplies(lf.v, w) {
+				continue
+			}
+			if lf.edge == nil {
+				if !allOK(c.MustPass(fn, nil, []ssa.Instruction{at}, w.gates...)) {
+					ok = false
+					why = append(why, "plain "+c.D(lf.v))
+				}
+				continue
+			}
+			if !c.edgeGuarded(fn, *lf.edge, w.gates...) {
+				ok = false
+				why = append(why, "leaf "+c.D(lf.v))
+			}
+		}
+		c.Report(fn, what+" allows only if it "+w.name, c.InstrPos(at), ok, c.D(v)+"; unguarded: "+strings.Join(why, ", "))
+	}
+}
+
+// edgeGuarded: every path from entry that takes edge e passes one of the gates.
+func (c *Ctx) edgeGuarded(fn *ssa.Function, e Edge, gates ...Gate) bool {
+	cut, _ := c.buildCut(fn, gates)
+	res := reach(fn, nil, cut)
+	term := e.From.Instrs[len(e.From.Instrs)-1]
+	if !res.reached[term] {
+		return true
+	}
+	if _, isIf := term.(*ssa.If); isIf {
+		del := cut.Edges[e.From]
+		for si, s := range e.From.Succs {
+			if s == e.To && si < 2 && !del[si] {
+				return false
+			}
+		}
+		return true
+	}
+	return false
 }
